@@ -3,6 +3,7 @@ package main
 import (
 	"bytes"
 	"fmt"
+	"strings"
 	"time"
 
 	"github.com/intuitivelabs/sipsp"
@@ -260,6 +261,20 @@ func checkC14(r *Run) {
 							}
 						}
 					}
+				}
+			}
+		}
+	}
+	// '%' escapes, complete and cut off, at the end of every component and at the end of the URI
+	for _, base := range []string{"sip:%s", "sips:u%s@h", "sip:u:p%s@h", "sip:u@h%s", "sip:u@h:5060;p=v%s", "sip:h;p%s=v;q", "sip:u@h?a=b%s", "sip:u@h;lr?a%s=1&c=d", "tel:+1%s", "sip:u@[::1];x=%s"} {
+		for _, esc := range []string{"%", "%4", "%41", "%4g", "%%", "%zz", "%41%", "%e2%82%ac"} {
+			u := strings.Replace(base, "%s", esc, 1)
+			for _, via := range []string{"", "parsecmp2"} {
+				vs, _ := evalC14via([]byte(u), via)
+				r.St.Evals++
+				r.St.Transitions++
+				for _, v := range vs {
+					r.Col.add(v)
 				}
 			}
 		}
